@@ -7,6 +7,7 @@
 -/
 import IppModel.Lemmas.Encode
 import IppModel.Lemmas.Extra
+import IppModel.Lemmas.OpFirst
 namespace Ipp.Props.C03
 open Ipp Ipp.Gen Ipp.Spec
 
@@ -63,5 +64,16 @@ def demo : List Group :=
    ⟨.JobAttributes, []⟩, ⟨.OperationAttributes, [([0x7a], .other 0x2f [1, 2, 3])]⟩]
 
 example : wfMsg demo = true := by decide
+
+/-- Every message: the encoder's bytes are the reference encoding of the message with its operation group in front,
+    that tree is well-formed, and its reading is exactly that message. -/
+theorem any_message (h : Header) (gs L : List Group) (hwf : gs.all wfGroupC = true) (hL : ListingOf gs L) :
+    encodeMsg h L = ser (toWireMsg h (opFirst L)) ∧ wfWire (toWireMsg h (opFirst L)) = true ∧
+    interp (toWireMsg h (opFirst L)) = (h, opFirst gs) := by
+  have hwf' := wfMsg_opFirst gs hwf
+  have hL' := listing_opFirst gs L hL
+  refine ⟨?_, toWireMsg_wf h _ _ hwf' hL', interp_toWireMsg h _ _ hwf' hL'⟩
+  rw [← encodeMsg_opFirst h L]
+  exact encodeMsg_eq_ser h _ _ hwf' hL'
 
 end Ipp.Props.C03
